@@ -3,6 +3,7 @@
 from __future__ import annotations
 
 from ..common import Ctx
+from .. import examples
 from . import render
 
 FOCUS = {"C05": ["vertices"], "C06": ["file", "addressing"], "C07": ["edges"], "C10": ["addressing", "edges"]}["C05"]
@@ -16,6 +17,8 @@ def run(ctx: Ctx) -> None:
     for focus in FOCUS:
         render.run_focus(ctx, "C05", focus, n // len(FOCUS))
     extra(ctx)
+    # the repository's example scripts as recorded executions: File.tla OnePerPoint / NoOrphans on what they write
+    examples.judge_examples(ctx, "C05")
 
 
 def extra(ctx: Ctx) -> None:
